@@ -140,6 +140,14 @@ def decoy_model(env, recipe, salt=0):
     remembers of it (tables keyed by a view's name and size) must not reach the judged model.  True if one was built."""
     from harness import gen
     sib = gen.sibling_views(recipe, env, salt)
+    if sib is None and env.get("params") and any(n[0] in ("param", "vparam_elem") for n in walk(recipe)):
+        # same recipe, same names, OTHER parameter values: an earlier model whose Parameters are name-equal to the judged one's
+        import copy
+        env2 = copy.deepcopy(env)
+        for p_ in env2["params"]:
+            if isinstance(p_.get("value"), (int, float)):
+                p_["value"] = float(p_["value"]) + 1.75
+        sib = (env2, recipe)
     if sib is None:
         return False
     try:
@@ -154,7 +162,7 @@ def decoy_model(env, recipe, salt=0):
             for fn in (lambda: [gradient(e, v) for v in V[:8]], lambda: compile_expression(e, V)(x),
                        lambda: compile_gradient(e, V)(x), lambda: compile_jacobian([e], V)(x),
                        lambda: e.evaluate({v.name: 1.1 for v in V}), lambda: e.degree,
-                       lambda: compile_hessian(e, V)(x) if len(V) <= 8 else None):
+                       lambda: compile_hessian(e, V)(x) if len(V) <= 12 else None):
                 try:
                     fn()
                 except Exception:
